@@ -134,7 +134,31 @@ func runC15(ctx *Ctx) {
 	ctx.CheckRapid("skip", ctx.N(800000, 6000000)/ctx.NShards+1, func(rt *rapid.T) *Case {
 		cfg := &model.StreamCfg{Labels: map[string]int{}}
 		var b []byte
-		switch rapid.IntRange(0, 9).Draw(rt, "class") {
+		switch rapid.IntRange(0, 10).Draw(rt, "class") {
+		case 10:
+			// a group whose start and end tags are written in independently drawn
+			// widths (minimal up to ten bytes), holding a few small records, ending
+			// the input or followed by a suffix; nested once in a while
+			var grp func(depth int) []byte
+			grp = func(depth int) []byte {
+				num := uint64(rapid.OneOf(rapid.IntRange(1, 40), rapid.SampledFrom([]int{2047, 2048, 536870911})).Draw(rt, "wgnum"))
+				st, en := num<<3|3, num<<3|4
+				g := appendPadded(nil, st, rapid.IntRange(protowire.SizeVarint(st), 10).Draw(rt, "startwidth"))
+				for i, n := 0, rapid.IntRange(0, 3).Draw(rt, "wkids"); i < n; i++ {
+					if depth < 2 && rapid.IntRange(0, 3).Draw(rt, "wkidgroup") == 0 {
+						g = append(g, grp(depth+1)...)
+						continue
+					}
+					kt := uint64(rapid.IntRange(1, 20).Draw(rt, "wknum"))<<3 | 0
+					g = appendPadded(g, kt, rapid.IntRange(1, 3).Draw(rt, "wkwidth"))
+					g = protowire.AppendVarint(g, uint64(rapid.IntRange(0, 300).Draw(rt, "wkval")))
+				}
+				return appendPadded(g, en, rapid.IntRange(protowire.SizeVarint(en), 10).Draw(rt, "endwidth"))
+			}
+			b = grp(0)
+			if rapid.Bool().Draw(rt, "wsuffix") {
+				b = append(b, rapid.SliceOfN(rapid.Byte(), 1, 4).Draw(rt, "suffix")...)
+			}
 		case 9:
 			// every varint of a record written in a drawn width (tags padded up to ten
 			// bytes), the value possibly an unterminated run of continuation bytes of
